@@ -58,7 +58,9 @@ CHECKS = {
          'of third-party actions before every push of a job; journal oracle',
          'E1',
          'For sampled jobs of generated histories every (push index, '
-         'third-party action) placement is executed from a snapshot; the '
+         'third-party action) placement is executed from a snapshot, plus '
+         'placements before the other commands that talk to the remote, one '
+         'run per failing network command and one per rejected ref; the '
          'reference-transaction journal of the remote must show only '
          'fast-forwards on destinations and no change outside w/ q/ tmp/.',
          'third-party actions are placed between git commands, not inside '
@@ -278,7 +280,13 @@ def main():
         'checks': checks,
         'notes': 'Every check: bin/check <ID> --tier quick|thorough; exit 0 '
                  'held, 1 VIOLATION, 2 harness error. VERIF_SEED honoured. '
-                 'known_findings.json is read-only at run time.',
+                 'known_findings.json is read-only at run time (13 entries, '
+                 'all fixed: they suppress nothing). Before generating, each '
+                 'check replays the shrunk cases under regressions/<ID>/ '
+                 '(repaired findings and caught seeded changes) with plain '
+                 'Python. seeded/ holds 54 independently written breaking '
+                 'changes with the result of our checks on each '
+                 '(seeded/README.md); sensitivity/ holds own mutants.',
         'not_applicable': [{'property_id': p, 'reason': NA_REASON}
                            for p in ALL if p not in CHECKS],
     }
